@@ -250,14 +250,21 @@ theorem elimTests_found (r parent : Rule) :
         r.objectJoin.all (fun cp => cp.1 = cp.2)) := by
   simp [elimTests, ElimShape.found]
 
-theorem C07_elim_found_is_shared (rules : List Rule) (r : Rule) :
-    eliminateSelfJoinG ElimShape.found rules r = eliminateSelfJoin rules r := by
+/-- the repaired shape (fix commit of C07_F1 / C07_F2) is what the shared normaliser model implements -/
+theorem elimTests_repaired (r parent : Rule) :
+    elimTests ElimShape.repaired r parent =
+      (decide (r.logicalSourceValue = parent.logicalSourceValue) && decide (r.iterator = parent.iterator) &&
+        r.objectJoin.all (fun cp => cp.1 = cp.2) && subjRefsAreJoinCols r parent) := by
+  simp [elimTests, ElimShape.repaired, ElimShape.found, subjRefsAreJoinCols, sameSet]
+
+theorem C07_elim_repaired_is_shared (rules : List Rule) (r : Rule) :
+    eliminateSelfJoinG ElimShape.repaired rules r = eliminateSelfJoin rules r := by
   unfold eliminateSelfJoinG eliminateSelfJoin
   by_cases hpt : r.objectMapType = .parentTM
   · simp only [hpt, ↓reduceIte]
     cases hf : rules.find? (fun p => p.tmId = r.objectMapValue) with
     | none => rfl
-    | some parent => simp only [elimTests_found]
+    | some parent => simp only [elimTests_repaired]
   · simp only [hpt, ↓reduceIte]
 
 /-- the rewriting either leaves the rule alone or replaces the object map by the parent's subject map -/
